@@ -202,7 +202,15 @@ EXPORT errno_t _wcsrtombs_s_chk(size_t *restrict retvalp, char *restrict dest,
     }
 
     /* libc stores up to len bytes: never more than dmax */
-    l = *retvalp = wcsrtombs(dest, srcp, (dest && len > dmax) ? dmax : len, ps);
+    if (dest && len > dmax) {
+        /* the source must then fit completely */
+        l = wcsrtombs(dest, srcp, dmax, ps);
+        if (l != (size_t)-1 && *srcp != NULL)
+            l = dmax;
+        *retvalp = l;
+    } else {
+        l = *retvalp = wcsrtombs(dest, srcp, len, ps);
+    }
 
     if (likely(l < dmax)) {
         if (dest) {
